@@ -287,8 +287,33 @@ func runJob(spec *Spec, m *Merged, mu *sync.Mutex, j job, tier string, seed uint
 		if j.onlyFamily != "" {
 			return
 		}
-		// resume the shard after the case that ended the worker
+		// resume the shard after the case that ended the worker; after a watchdog overrun the rest of
+		// that family is skipped in this shard (further overruns would cost minutes and add nothing:
+		// the candidate has been judged, and the run is already not a clean one)
 		j.startFamily, j.startIndex = cur.Family, cur.Index+1
+		if code == 3 {
+			next := ""
+			found := false
+			for _, f := range spec.Families {
+				if f.Isolated {
+					continue
+				}
+				if found {
+					next = f.Name
+					break
+				}
+				if f.Name == cur.Family {
+					found = true
+				}
+			}
+			mu.Lock()
+			m.Counters["families_cut_short_after_overrun"]++
+			mu.Unlock()
+			if next == "" {
+				return
+			}
+			j.startFamily, j.startIndex = next, 0
+		}
 	}
 	mu.Lock()
 	m.Broken = append(m.Broken, "worker "+base+" was restarted 40 times; giving up")
